@@ -142,10 +142,18 @@ def matrix_stream(ck, tmp, world, envs):
         data = signed if sg else base
         jobs.append((tmp, f"m{i}", data, kn, kid, alg, keys.dir, action, None))
         meta.append((action, sg, alg, match, kn, kid, data))
+    # a key replaced under its old identifier: the input is signed with the SAME algorithm and key identifier, by another key
+    for j, alg in enumerate(ALGS):
+        prev = sl.lib_single(tmp, base, keys.for_alg(alg, 1), 77, alg, keys.dir, "error")
+        if prev[0] != "ok":
+            continue
+        for action in ACTIONS:
+            jobs.append((tmp, f"mk{j}{action}", prev[1], keys.for_alg(alg, 0), 77, alg, keys.dir, action, None))
+            meta.append((action, True, alg, True, keys.for_alg(alg, 0), 77, prev[1]))
     res = sl.parallel(sl.cli_single, jobs)
     fails, reqs, keep = [], [], []
     for (action, sg, alg, match, kn, kid, data), (rc, out) in zip(meta, res):
-        ck.count("matrix", (action, sg, alg, match), nontrivial=True,
+        ck.count("matrix", (action, sg, alg, match, kid == 77 and data is not signed and sg), nontrivial=True,
                  sample={"action": action, "input": "singly signed" if sg else "unsigned", "alg": alg, "key": "matching" if match else f"mismatching ({kn})", "via": "cli"})
         why = oracle_single(data, rc == 0, out, keys, kn, alg, kid, action, sg, match)
         lr = sl.lib_single(tmp, data, kn, kid, alg, keys.dir, action)       # in-process: the exception class, for the model comparison
